@@ -1538,8 +1538,9 @@ class Bits:
         chunk_size = 8 * 100 * 1024 * 1024  # 100 MiB
         if _VERIF_ENABLED and _VERIF_TOFILE_CHUNK_BITS is not None:
             chunk_size = _VERIF_TOFILE_CHUNK_BITS
-        for chunk in self.cut(chunk_size):
-            f.write(chunk.tobytes())
+        # The chunks are taken in storage (MSB0) order whatever the bit numbering option is, as that's the order of the bytes.
+        for start in range(0, len(self), chunk_size):
+            f.write(self._absolute_slice(start, min(start + chunk_size, len(self))).tobytes())
 
     def startswith(self, prefix: BitsType, start: Optional[int] = None, end: Optional[int] = None) -> bool:
         """Return whether the current bitstring starts with prefix.
